@@ -40,7 +40,12 @@ Verdict(o) ==
         \* a declaration must be spelled like the occurrences it governs
         DeclOK == \A d \in D : \A i \in I : (occ[i].scope = o.decl[d].scope /\ occ[i].name = o.decl[d].name) => occ[i].out = o.decl[d].out
         GB(n) == GlobalBound(par, kind, UIn, S, n)
-    IN  IF o.tainted /\ (Changed \/ DeclChanged) THEN "c09:name-changed-in-a-tainted-module"
+        \* a name spelled eval / exec / locals / globals / vars that is read, resolves to the global scope and is never bound by the module
+        \* IS the builtin: the module is tainted wherever that read happens (class scopes in between are skipped by the language)
+        Trig == IF "trigger_names" \in DOMAIN o THEN SeqSet(o.trigger_names) ELSE {}
+        RefersToBuiltin == \E i \in I : occ[i].name \in Trig /\ occ[i].how = "load" /\ inb[i][1] = "G" /\ ~GB(occ[i].name)
+        Tainted == o.tainted \/ RefersToBuiltin
+    IN  IF Tainted /\ (Changed \/ DeclChanged \/ A # {}) THEN "c09:name-changed-in-a-tainted-module"
         ELSE IF \E i \in I : inb[i][1] = "G" /\ occ[i].name \in SeqSet(o.presG) /\ occ[i].out # occ[i].name THEN "c10:preserved-global-renamed"
         ELSE IF \E i \in I : inb[i][1] = "L" /\ occ[i].name \in SeqSet(o.presL) /\ occ[i].out # occ[i].name THEN "c10:preserved-local-renamed"
         ELSE IF \E i \in I : inb[i][1] = "G" /\ ~o.rg /\ occ[i].out # occ[i].name THEN "c04:global-renamed-without-rename-globals"
